@@ -3,6 +3,7 @@
 package main
 
 import (
+	"strings"
 	"verifharness/cmd/c07/sd"
 	"verifharness/vh"
 )
@@ -72,11 +73,50 @@ func genVisitStop(g *vh.Gen) {
 	}
 }
 
+// genHeld: listings the caller KEEPS (operation h instead of l) and reads again at the very end
+// (trailing operation c), after later operations on other mailboxes and on their own mailbox: the
+// messages of a listing handed out earlier still say which mailbox they belong to, have their size, and
+// — unless they have left since — read back their content. (Every visit of every history likewise
+// reads what it was handed only after VisitMailboxes has returned.)
+func genHeld(g *vh.Gen) {
+	for i := 0; i < g.N(50, 2000); i++ {
+		names := sd.Names(g)
+		if len(names) < 2 {
+			names = append(names, "held-two")
+		}
+		capN := 0
+		if g.Chance(0.3) {
+			capN = 2 + g.Intn(3)
+		}
+		p := sd.Profile{MinOps: 8, MaxOps: 34, Sizes: []int{120, 200, 333, 4097}, PAdd: 0.5}
+		ops := strings.Split(sd.Ops(g, len(names), p), ",")
+		var out []string
+		held := 0
+		for j, o := range ops {
+			if o[0] == 'l' && j < len(ops)-len(names)-1 && g.Chance(0.7) {
+				o = "h" + o[1:]
+				held++
+			}
+			out = append(out, o)
+			if o[0] == 'a' && held < 6 && g.Chance(0.3) {
+				// keep the listing right after a delivery: later deliveries, removals, purges follow
+				out = append(out, "h"+strings.Split(o[1:], ":")[0])
+				held++
+			}
+		}
+		if held == 0 {
+			out = append([]string{"a0:1600000001:200", "h0"}, out...)
+		}
+		sd.EmitHistory(g, []string{"mem", "file"}, "direct", capN, 0, names, strings.Join(out, ",")+",c")
+	}
+}
+
 func genAll(g *vh.Gen) {
 	gen(g)
 	sd.GenCollide(g)
 	genSizes(g)
 	genVisitStop(g)
+	genHeld(g)
 	// arrival order is not id order: a mailbox whose deliveries straddle the wrap of the id counter
 	// within one second (planted, see sd/wrap.go); listing, "latest", get/seen/remove by handle
 	for i := 0; i < g.N(12, 200); i++ {
